@@ -492,6 +492,30 @@ def _(nz, nx, nt, ns, nr, engine="numpy", dynamic=False, wavfilter=False):
                         dynamic=dynamic, wavfilter=wavfilter)
 
 
+COMPOUNDS = {
+    "A**2": lambda A, B: A ** 2, "A**0": lambda A, B: A ** 0, "A**3": lambda A, B: A ** 3, "A*B": lambda A, B: A * B,
+    "A+B": lambda A, B: A + B, "A-B": lambda A, B: A - B, "2*A": lambda A, B: 2 * A, "-A": lambda A, B: -A,
+    "A.H": lambda A, B: A.H, "A.T": lambda A, B: A.T, "A.conj()": lambda A, B: A.conj(), "(A*B).H": lambda A, B: (A * B).H,
+    "A.T.H": lambda A, B: A.T.H, "(A.T*B).H": lambda A, B: (A.T * B).H, "(A**2).H": lambda A, B: (A ** 2).H,
+    "(1-2j)*A": lambda A, B: (1 - 2j) * A, "A.H+B.T": lambda A, B: A.H + B.T,
+}
+
+
+@fam("Compound")
+def _(expr, cplx=False, n=3):
+    """Composite operator classes of linearoperator.py over MatrixMult leaves."""
+    A = _leaf(("cmpA", n, cplx), n, n, cplx)
+    B = _leaf(("cmpB", n, cplx), n, n, cplx)
+    return COMPOUNDS[expr](A, B)
+
+
+# families of real dtype that accept complex input vectors on the unchanged tree (the rest of the library
+# allocates outputs with the operator's real dtype and rejects / truncates complex input)
+COMPLEX_INPUT_OK = {"AVOLinearModelling", "CausalIntegration", "Convolve1D", "Convolve2D", "ConvolveND", "DCT", "DWT", "DWT2D", "DWTND",
+                    "Diagonal", "Flip", "Kronecker", "MatrixMult", "NonStationaryConvolve1D", "Pad", "Roll", "Smoothing1D", "Smoothing2D",
+                    "Sum", "Transpose", "Zero", "Compound"}
+
+
 # ------------------------------------------------------------------ grids
 def build(family, params):
     return F[family](**params)
@@ -572,6 +596,11 @@ def grid(tier):
             add("Convolve1D", dims=d, nh=3, offset=1, axis=ax, cplx=True)
             if len(d) > 1:
                 add("Convolve1D", dims=d, nh=3, offset=1, axis=ax, hnd=True)
+    for e in COMPOUNDS:
+        for c in (False, True):
+            if "j" in e and not c:
+                continue
+            add("Compound", expr=e, cplx=c)
     add("Diagonal", dims=[3, 4], full=True)
     add("Diagonal", dims=[2, 3], full=True, cplx=True)
     # filter longer than the model (the _Convolve1Dlong class): odd/even model and filter lengths, several offsets
@@ -673,6 +702,8 @@ def grid(tier):
                 add("FFT2D", dims=[2, 4, 3], axes=[0, 2], norm=norm, real=real, engine=engine)
                 add("FFT2D", dims=[4, 4], norm=norm, real=real, engine=engine, ifftshift_before=[True, False],
                     fftshift_after=[True, False] if real else [False, True])
+                add("FFT2D", dims=[3, 4], nffts=[5, 6], norm=norm, real=real, engine=engine, ifftshift_before=[True, True],
+                    fftshift_after=[True, False] if real else [True, True])
                 add("FFTND", dims=[2, 3, 4], norm=norm, real=real, engine=engine)
                 add("FFTND", dims=[3, 2, 3], nffts=[4, 2, 4], norm=norm, real=real, engine=engine)
     add("Shift", dims=[6], shift=1.5)
